@@ -91,6 +91,8 @@ FN = {"$": "fn", "name": "id"}
 SHAPE_ENVS = [
     {"a": "s", "b": 2, "c": 3, "x": 1, "y": 2, "z": 4, "f": FN, "k": "k", "s": "t"},
     {"a": 0.1, "b": 0.2, "c": 0.3, "x": 0.7, "y": 0.1, "z": 0.2, "f": FN, "k": 3, "s": 1.5},
+    # falsy but not nullish on the left, truthy on the right: `??` against `||` / `&&` in either grouping
+    {"a": 0, "b": "", "c": "C", "x": False, "y": 0, "z": 5, "f": FN, "k": "", "s": 0},
     {"a": 1e16, "b": -1e16, "c": 1, "x": 3, "y": 1e16, "z": -1e16, "f": FN, "k": 7, "s": 2},
     {"a": None, "b": {"$": "undefined"}, "c": "", "x": 0, "y": "0", "z": False, "f": FN, "k": None, "s": ""},
 ]
@@ -400,7 +402,7 @@ def run(chk):
             if i >= n:
                 # expression shapes: environments that tell every association apart (a string on the left of numbers, floats whose
                 # sums depend on the grouping, big magnitudes), then the nullish / falsy one
-                for D0 in (SHAPE_ENVS if not quick else SHAPE_ENVS[:2] + [SHAPE_ENVS[2 + i % 2]]):
+                for D0 in (SHAPE_ENVS if not quick else SHAPE_ENVS[:3] + [SHAPE_ENVS[3 + i % 2]]):
                     steps = [{"create": D0}]
                     rreqs.append({"op": "render", "gen_groups": o0["gen_groups"], "path": "p", "steps": steps})
                     rreqs.append({"op": "render", "gen_groups": o1["gen_groups"], "path": "p", "steps": steps})
